@@ -35,7 +35,7 @@ Refused calls (wrong class / number of arguments / SRID) are outside the propert
 kind is compared with the model's)."""
 import math
 from engine import fbits, bitsf, err_kind
-from props.geo14 import (TOL_DEG, TOL_M, o_g2e, o_e2g, geo_diff, m_diff, close_geo, close_m, o_enu, o_unenu)
+from props.geo14 import (TOL_DEG, TOL_M, o_g2e, o_e2g, geo_diff, m_diff, close_geo, close_m, o_enu, o_unenu, wrap3, wrap_num, fit3, corr_close_m, corr_close_geo)
 
 METH = {"ENU": "toENUCoords", "GEO": "toGeoCoords", "ECEF": "toECEFCoords", "PROJ": "toProjCoords"}
 ATTRS = {"G": ("lon", "lat", "hgt"), "N": ("E", "N", "U"), "E": ("X", "Y", "Z")}
@@ -228,8 +228,10 @@ def valid(case):
 # the real code
 # ------------------------------------------------------------------------------------------------------
 class Runner:
-    def __init__(self, oc, Obs, Track, ObsTime):
+    def __init__(self, oc, Obs, Track, ObsTime, ty=None):
+        """ty: number types of the coordinate slots (geo14.py), applied to the values of new and set ops"""
         self.oc, self.Obs, self.Track, self.ObsTime = oc, Obs, Track, ObsTime
+        self.ty = ty
         self.kinds = {oc.GeoCoords: "G", oc.ENUCoords: "N", oc.ECEFCoords: "E"}
         self.cls = {"G": oc.GeoCoords, "N": oc.ENUCoords, "E": oc.ECEFCoords}
 
@@ -283,15 +285,16 @@ class Runner:
             res, tk = None, None
             try:
                 if op[0] == "new":
-                    o = self.cls[op[2]](*op[3])
+                    o = self.cls[op[2]](*wrap3(op[3], self.ty))
                     named[op[1]] = o
                     res = see(o)
                 elif op[0] == "set":
                     o = val(op[1])
+                    x = wrap_num(op[3], self.ty[op[2]]) if self.ty else op[3]
                     if op[4] == "setter":
-                        getattr(o, ("setX", "setY", "setZ")[op[2]])(op[3])
+                        getattr(o, ("setX", "setY", "setZ")[op[2]])(x)
                     else:
-                        setattr(o, ATTRS[self.kind(o)][op[2]], op[3])
+                        setattr(o, ATTRS[self.kind(o)][op[2]], x)
                 elif op[0] == "call":
                     o = val(op[2])
                     r = getattr(o, METH[op[3]])(*[val(v) for v in op[4]])
@@ -397,6 +400,7 @@ def decode(reply):
 
 
 def compare(case, a, b):
+    close_m, close_geo = corr_close_m(case), corr_close_geo(case)
     if a["err"] != b["err"]:
         return "error: impl=%s model=%s (after %d / %d completed ops)" % (a["err"], b["err"], len(a["steps"]), len(b["steps"]))
     if len(a["steps"]) != len(b["steps"]):
@@ -1207,7 +1211,35 @@ def features(case):
     return {"base_updated_then_reused": reused, "updates": min(nset, 4), "tracks": sum(1 for o in case["ops"] if o[0] == "mk") > 0}
 
 
+def typed_hist(case, ty):
+    """the history with its values moved (deterministically: equal values stay equal) so that the int-like slots of ty apply,
+    and tagged with ty: every new / set op hands its numbers over in these types (geo14.py)"""
+    s = Static()
+    ops = []
+    for op in case["ops"]:
+        if op[0] == "new":
+            op = ["new", op[1], op[2], fit3(op[2], op[3], ty)]
+        elif op[0] == "set":
+            ok = s.ok
+            k = s.val_kind(op[1])
+            s.ok = ok
+            v = [0.0, 0.0, 0.0]
+            v[op[2]] = op[3]
+            op = ["set", op[1], op[2], fit3(k if k in ("G", "E", "N") else "N", v, ty)[op[2]], op[4]]
+        ops.append(op)
+        if not s.dead:
+            s.step(op)
+    return dict(case, ops=ops, ty=list(ty))
+
+
 def shrink(case):
+    for c in _shrink(case):
+        if case.get("ty"):
+            c = dict(c, ty=case["ty"])
+        yield c
+
+
+def _shrink(case):
     ops = case["ops"]
     for i in range(len(ops) - 1, -1, -1):
         c = {"kind": "hist", "ops": ops[:i] + ops[i + 1:]}
